@@ -140,6 +140,54 @@ fn run_one(cmd: &str, input: &[u8]) -> String {
       }
       format!("OK {}", serde_json::Value::Array(outs))
     }
+    "corrupt" => {
+      // input: JSON {"docs": [doc,..], "flips": [[file, offset, xor],..]}  file in terms|postings|docstore|fast|meta
+      // one segment is committed on in-memory storage; each flip alters ONE byte of one segment file (offset taken modulo
+      // the file length), a fresh reader is opened, the outcome recorded, and the byte restored.
+      // output: JSON array of {"file","off","len","open": "ok" | "err: .." | "panic: .."}
+      let v: serde_json::Value = match serde_json::from_slice(input) { Ok(v) => v, Err(e) => return format!("ERR bad input {}", e) };
+      let path = PathBuf::from("/mem/idx");
+      let storage: Arc<dyn Storage> = Arc::new(InMemoryStorage::new(path.clone()));
+      let opts = searchlite_core::api::types::IndexOptions {
+        path: path.clone(), create_if_missing: true, enable_positions: true, bm25_k1: 0.9, bm25_b: 0.4,
+        storage: searchlite_core::api::types::StorageType::InMemory,
+      };
+      let idx = match searchlite_core::Index::create_with_storage(&path, searchlite_core::api::types::Schema::default_text_body(), opts, storage.clone()) { Ok(i) => i, Err(e) => return format!("ERR create {}", e) };
+      let empty = Vec::new();
+      {
+        let mut w = match idx.writer() { Ok(w) => w, Err(e) => return format!("ERR writer {}", e) };
+        for d in v["docs"].as_array().unwrap_or(&empty) {
+          let doc: searchlite_core::api::types::Document = match serde_json::from_value(serde_json::json!({"fields": d})) { Ok(d) => d, Err(e) => return format!("ERR doc {}", e) };
+          if let Err(e) = w.add_document(&doc) { return format!("ERR add {}", e); }
+        }
+        if let Err(e) = w.commit() { return format!("ERR commit {}", e); }
+      }
+      let man = idx.manifest();
+      let seg = match man.segments.first() { Some(s) => s.clone(), None => return "ERR no segment".to_string() };
+      if let Err(e) = idx.reader() { return format!("ERR the intact index does not open: {}", e); }
+      let mut outs = Vec::new();
+      for f in v["flips"].as_array().unwrap_or(&empty) {
+        let kind = f[0].as_str().unwrap_or("");
+        let p = match kind { "terms" => &seg.paths.terms, "postings" => &seg.paths.postings, "docstore" => &seg.paths.docstore, "fast" => &seg.paths.fast, "meta" => &seg.paths.meta, _ => continue };
+        let p = PathBuf::from(p);
+        let orig = match storage.read_to_end(&p) { Ok(b) => b, Err(e) => return format!("ERR read {} {}", kind, e) };
+        if orig.is_empty() { outs.push(serde_json::json!({"file": kind, "len": 0, "open": "skipped: empty file"})); continue; }
+        let off = (f[1].as_u64().unwrap_or(0) as usize) % orig.len();
+        let x = (f[2].as_u64().unwrap_or(1) as u8).max(1);
+        let mut bad = orig.clone();
+        bad[off] ^= x;
+        storage.write_all(&p, &bad).unwrap();
+        let res = catch_unwind(AssertUnwindSafe(|| idx.reader().map(|_| ())));
+        let open = match res {
+          Ok(Ok(())) => "ok".to_string(),
+          Ok(Err(e)) => format!("err: {}", e),
+          Err(pn) => format!("panic: {}", pn.downcast_ref::<String>().cloned().or_else(|| pn.downcast_ref::<&str>().map(|s| s.to_string())).unwrap_or_default()),
+        };
+        storage.write_all(&p, &orig).unwrap();
+        outs.push(serde_json::json!({"file": kind, "off": off, "len": orig.len(), "open": open}));
+      }
+      format!("OK {}", serde_json::Value::Array(outs))
+    }
     "history" => {
       // input: JSON {"ops": [["add", {doc}], ["del", "id"], ["commit"], ["rollback"], ["restart"], ["compact"]]}
       // "restart" = the process dies (writer leaked, nothing synced explicitly) and the index is reopened on the same storage.
